@@ -1375,12 +1375,13 @@ Section HAssemble.
     destruct HlastB as [HL2 HLe].
     destruct (mid_bounds first last_ HL2) as [M1 M2].
     set (mid := (first + last_) / 2) in *.
-    unfold blk_good, blk_rows, blk_mid. cbn [fst snd].
+    assert (HNS : zip_with (fun a b => b - a - 1) B (tl B) <> []) by (unfold B, idx, nrow; cbn; discriminate).
+    unfold blk_good, blk_rows, blk_mid. cbn [fst snd]. unfold hblock, str in *.
     rewrite zip_with_length.
     match goal with |- context [if ?c then _ else _] => destruct c end;
       rewrite ?set_nth_length.
     all: rewrite prefix_length;
-      rewrite (middle_length _ _ _ _ ltac:(unfold B, idx, nrow; cbn; discriminate));
+      rewrite (middle_length _ _ _ _ HNS);
       rewrite !repeat_length, (stems_telescope B BI HBne), Hfirst, Hlast, Hres.
     all: replace (Nat.min _ _) with (sum_list nrow) by lia.
     all: split; [repeat split; lia|].
@@ -1437,3 +1438,460 @@ Section HAssemble.
       apply hassemble3_good; [exact HG|cbn; lia].
   Qed.
 End HAssemble.
+
+Theorem hbranch_good st inter ws : forall t d,
+  blk_good (hbranch st inter ws d t) /\ blk_rows (hbranch st inter ws d t) = hrows t.
+Proof.
+  induction t as [g n a ks IH] using tree_ind'. intros d.
+  rewrite hbranch_eq, hrows_eq. cbv zeta.
+  change (existsb (fun k : tree => negb (is_hole k)) ks) with (existsb real ks).
+  destruct (is_hole (T g n a ks) || negb (existsb real ks)) eqn:E.
+  - unfold blk_good, blk_rows, blk_mid. cbn [fst snd length]. repeat split; lia.
+  - assert (Hne : map (hbranch st inter ws (S d)) ks <> []).
+    { destruct ks; [|discriminate]. cbn in E. rewrite orb_true_r in E. discriminate. }
+    assert (HF : Forall blk_good (map (hbranch st inter ws (S d)) ks)).
+    { apply Forall_forall. intros b Hb. apply in_map_iff in Hb as [k [<- Hk]].
+      rewrite Forall_forall in IH. apply (IH k Hk). }
+    destruct (hassemble_good st inter
+                (center (if is_hole (T g n a ks) then [32%N; 32%N] else n) (pad_at ws d))
+                (map (hbranch st inter ws (S d)) ks) Hne HF) as [G R].
+    cbv zeta in G, R. split; [exact G|]. etransitivity; [exact R|].
+    replace (map blk_rows (map (hbranch st inter ws (S d)) ks)) with (hrows_kids ks); [reflexivity|].
+    unfold hrows_kids. rewrite map_map. apply map_ext_in. intros k Hk.
+    rewrite Forall_forall in IH. symmetry. apply (IH k Hk).
+Qed.
+
+(* hyield_tree never trips over its `assert`, and emits exactly hrows rows *)
+Theorem hyield_rows_spec st inter t :
+  exists rows, hyield_rows st inter t = Ret rows /\ h_rows t rows = true.
+Proof.
+  unfold hyield_rows.
+  destruct (hbranch_good st inter (padding_depths inter t) t 1) as [[G1 _] R].
+  destruct (hbranch st inter (padding_depths inter t) 1 t) as [[rows mid] ok].
+  cbn [snd] in G1. subst ok. exists rows. split; [reflexivity|].
+  unfold h_rows. unfold blk_rows in R. cbn [fst] in R. rewrite R. apply Nat.eqb_refl.
+Qed.
+
+(* ============================================================================================== *)
+(* 9. horizontal rendering: every row ends in the cell of one leaf, top to bottom in pre-order *)
+
+(* the text of a leaf (or empty slot) of depth d *)
+Definition hleaf_cell (st : hstyle) (ws : list nat) (d : nat) (t : tree) : str :=
+  hs_branch st :: 32%N :: rstrip_ws (center (if is_hole t then [32; 32]%N else tname t) (pad_at ws d)).
+
+(* per row of the block of t: the leaf cell the row ends in ([] for a separating row) *)
+Fixpoint hsuffixes (st : hstyle) (ws : list nat) (d : nat) (t : tree) : list str :=
+  match t with
+  | T _ _ _ ks =>
+      if is_hole t || negb (existsb real ks) then [hleaf_cell st ws d t]
+      else
+        let ss := (fix go (l : list tree) : list (list str) :=
+                     match l with [] => [] | k :: r => hsuffixes st ws (S d) k :: go r end) ks in
+        match ss with
+        | [[s0]; [s1]] => [s0; []; s1]
+        | _ => concat ss
+        end
+  end.
+
+Lemma hsuffixes_eq st ws d g n a ks :
+  hsuffixes st ws d (T g n a ks) =
+  if is_hole (T g n a ks) || negb (existsb real ks) then [hleaf_cell st ws d (T g n a ks)]
+  else let ss := map (hsuffixes st ws (S d)) ks in
+       match ss with
+       | [[s0]; [s1]] => [s0; []; s1]
+       | _ => concat ss
+       end.
+Proof.
+  cbn [hsuffixes].
+  replace ((fix go (l : list tree) : list (list str) :=
+              match l with [] => [] | k :: r => hsuffixes st ws (S d) k :: go r end) ks)
+    with (map (hsuffixes st ws (S d)) ks); [reflexivity|].
+  induction ks as [|k r IH]; [reflexivity|]. cbn [map]. rewrite IH. reflexivity.
+Qed.
+
+(* the leaf cells in pre-order, with the depth of each leaf *)
+Fixpoint hleaf_cells (st : hstyle) (ws : list nat) (d : nat) (t : tree) : list str :=
+  match t with
+  | T _ _ _ ks =>
+      if is_hole t || negb (existsb real ks) then [hleaf_cell st ws d t]
+      else (fix go (l : list tree) : list str :=
+              match l with [] => [] | k :: r => hleaf_cells st ws (S d) k ++ go r end) ks
+  end.
+
+Lemma hleaf_cells_eq st ws d g n a ks :
+  hleaf_cells st ws d (T g n a ks) =
+  if is_hole (T g n a ks) || negb (existsb real ks) then [hleaf_cell st ws d (T g n a ks)]
+  else concat (map (hleaf_cells st ws (S d)) ks).
+Proof.
+  cbn [hleaf_cells].
+  replace ((fix go (l : list tree) : list str :=
+              match l with [] => [] | k :: r => hleaf_cells st ws (S d) k ++ go r end) ks)
+    with (concat (map (hleaf_cells st ws (S d)) ks)); [reflexivity|].
+  induction ks as [|k r IH]; [reflexivity|]. cbn [map concat]. rewrite IH. reflexivity.
+Qed.
+
+Definition nonempty (s : str) : bool := match s with [] => false | _ => true end.
+
+Lemma filter_concat {A} (f : A -> bool) (l : list (list A)) :
+  filter f (concat l) = concat (map (filter f) l).
+Proof.
+  induction l as [|x l IH]; [reflexivity|]. cbn [concat map]. rewrite filter_app, IH. reflexivity.
+Qed.
+
+(* the non-empty suffixes are exactly the leaf cells in pre-order *)
+Lemma hsuffixes_leaves st ws : forall t d,
+  filter nonempty (hsuffixes st ws d t) = hleaf_cells st ws d t.
+Proof.
+  induction t as [g n a ks IH] using tree_ind'. intros d.
+  rewrite hsuffixes_eq, hleaf_cells_eq. cbv zeta.
+  destruct (is_hole (T g n a ks) || negb (existsb real ks)); [reflexivity|].
+  assert (HK : map (filter nonempty) (map (hsuffixes st ws (S d)) ks) = map (hleaf_cells st ws (S d)) ks).
+  { rewrite map_map. apply map_ext_in. intros k Hk. rewrite Forall_forall in IH. apply (IH k Hk). }
+  assert (HC : filter nonempty (concat (map (hsuffixes st ws (S d)) ks))
+               = concat (map (hleaf_cells st ws (S d)) ks)).
+  { rewrite filter_concat, HK. reflexivity. }
+  destruct (map (hsuffixes st ws (S d)) ks) as [|[|s0 [|? ?]] [|[|s1 [|? ?]] [|? ?]]] eqn:E; exact HC.
+Qed.
+
+Lemma zip_with_app_assoc (a b c : list str) :
+  zip_with (@app N) a (zip_with (@app N) b c) = zip_with (@app N) (zip_with (@app N) a b) c.
+Proof.
+  revert b c. induction a as [|x a IH]; intros [|y b] [|z c]; cbn; try reflexivity.
+  rewrite app_assoc, IH. reflexivity.
+Qed.
+
+Lemma zip_with_app_concat (P S : list (list str)) :
+  Forall2 (fun p s => length p = length s) P S ->
+  concat (map (fun ps => zip_with (@app N) (fst ps) (snd ps)) (combine P S))
+  = zip_with (@app N) (concat P) (concat S).
+Proof.
+  induction 1 as [|p s P' S' Hl HF IH]; [reflexivity|].
+  cbn [combine map concat fst snd]. rewrite IH. clear IH HF.
+  revert s Hl. induction p as [|x p IHp]; intros [|y s] Hl; try discriminate; [reflexivity|].
+  cbn [app zip_with]. f_equal. apply IHp. cbn in Hl. lia.
+Qed.
+
+(* what hassemble does to the rows of the children: a prefix in front of every row, after the
+   separating row has been inserted between two one-row children *)
+Lemma hassemble_shape st inter centered (sub : list hblock) :
+  sub <> [] ->
+  exists prefix,
+    fst (fst (hassemble st inter centered sub)) =
+    zip_with (@app N) prefix
+      (let result := concat (map (fun x : hblock => fst (fst x)) sub) in
+       match sub with
+       | [b0; b1] =>
+           if Nat.eqb (length (fst (fst b0)) + snd (fst b1) - snd (fst b0)) 1
+           then [nth 0 result []; []; nth 1 result []] else result
+       | _ => result
+       end).
+Proof.
+  intros HN. destruct sub as [|b0 [|b1 [|b2 rest]]]; [contradiction| | |].
+  - eexists. unfold hassemble. cbn [fst snd]. reflexivity.
+  - unfold hassemble. cbn [map fst snd hd List.last sum_list fold_right length].
+    rewrite Nat.add_0_r.
+    replace (length (fst (fst b0)) + length (fst (fst b1)) + snd (fst b1) - length (fst (fst b1)))
+      with (length (fst (fst b0)) + snd (fst b1)) by lia.
+    destruct (Nat.eqb (length (fst (fst b0)) + snd (fst b1) - snd (fst b0)) 1); eexists; reflexivity.
+  - eexists. unfold hassemble. cbn [fst snd]. reflexivity.
+Qed.
+
+Lemma hsuffixes_length st ws : forall t d, length (hsuffixes st ws d t) = hrows t.
+Proof.
+  induction t as [g n a ks IH] using tree_ind'. intros d.
+  rewrite hsuffixes_eq, hrows_eq. cbv zeta.
+  change (existsb (fun k : tree => negb (is_hole k)) ks) with (existsb real ks).
+  destruct (is_hole (T g n a ks) || negb (existsb real ks)); [reflexivity|].
+  assert (HK : map (@length str) (map (hsuffixes st ws (S d)) ks) = hrows_kids ks).
+  { unfold hrows_kids. rewrite map_map. apply map_ext_in. intros k Hk. rewrite Forall_forall in IH. apply (IH k Hk). }
+  assert (HC : length (concat (map (hsuffixes st ws (S d)) ks)) = fold_right Nat.add 0 (hrows_kids ks)).
+  { rewrite <- HK. generalize (map (hsuffixes st ws (S d)) ks). intros l.
+    induction l as [|x l IHl]; [reflexivity|]. cbn [concat map fold_right]. rewrite app_length, IHl. reflexivity. }
+  rewrite <- HK in *.
+  destruct (map (hsuffixes st ws (S d)) ks) as [|[|s0 [|? ?]] [|[|s1 [|? ?]] [|? ?]]]; try exact HC; reflexivity.
+Qed.
+
+Theorem hbranch_suffixes st inter ws : forall t d,
+  exists P, fst (fst (hbranch st inter ws d t)) = zip_with (@app N) P (hsuffixes st ws d t).
+Proof.
+  induction t as [g n a ks IH] using tree_ind'. intros d.
+  rewrite hbranch_eq, hsuffixes_eq. cbv zeta.
+  destruct (is_hole (T g n a ks) || negb (existsb real ks)) eqn:E.
+  - exists [[]]. reflexivity.
+  - set (sub := map (hbranch st inter ws (S d)) ks).
+    assert (Hne : sub <> []).
+    { unfold sub. destruct ks; [|discriminate]. cbn in E. rewrite orb_true_r in E. discriminate. }
+    (* the children's rows, child by child *)
+    assert (HP : exists Ps, Forall2 (fun p s => length p = length s) Ps (map (hsuffixes st ws (S d)) ks)
+                            /\ map (fun x : hblock => fst (fst x)) sub
+                               = map (fun ps => zip_with (@app N) (fst ps) (snd ps))
+                                     (combine Ps (map (hsuffixes st ws (S d)) ks))).
+    { unfold sub. clear E Hne sub. induction IH as [|k r Hk Hr IHr].
+      - exists []. split; [constructor|reflexivity].
+      - destruct IHr as [Ps [F E]]. destruct (Hk (S d)) as [P EP].
+        assert (HL : length (fst (fst (hbranch st inter ws (S d) k))) = length (hsuffixes st ws (S d) k)).
+        { destruct (hbranch_good st inter ws k (S d)) as [_ R]. unfold blk_rows in R. rewrite R.
+          symmetry. apply hsuffixes_length. }
+        exists (firstn (length (hsuffixes st ws (S d) k)) P :: Ps). split.
+        + constructor; [|exact F]. rewrite firstn_length. rewrite EP, zip_with_length in HL. lia.
+        + cbn [map combine fst snd]. rewrite E. f_equal. rewrite EP.
+          clear. generalize (hsuffixes st ws (S d) k) as S. intros S. revert P.
+          induction S as [|s S IHS]; intros [|p P]; cbn; try reflexivity. f_equal. apply IHS. }
+    destruct HP as [Ps [F EM]].
+    destruct (hassemble_shape st inter
+                (center (if is_hole (T g n a ks) then [32%N; 32%N] else n) (pad_at ws d)) sub Hne)
+      as [prefix EH].
+    cbv zeta in EH. pose proof (zip_with_app_concat _ _ F) as EC. unfold str in *. rewrite EM in EH.
+    rewrite EC in EH.
+    (* which of the two forms *)
+    assert (HG : Forall blk_good sub).
+    { unfold sub. apply Forall_forall. intros b Hb. apply in_map_iff in Hb as [k [<- Hk]].
+      apply (hbranch_good st inter ws k (S d)). }
+    assert (HR : map (@length str) (map (hsuffixes st ws (S d)) ks) = map blk_rows sub).
+    { unfold sub. rewrite !map_map. apply map_ext. intros k. rewrite hsuffixes_length.
+      symmetry. apply (hbranch_good st inter ws k (S d)). }
+    destruct sub as [|b0 [|b1 [|b2 rest]]] eqn:ES; [contradiction| | |].
+    + rewrite zip_with_app_assoc in EH.
+      destruct (map (hsuffixes st ws (S d)) ks) as [|s0 [|? ?]] eqn:EK; try (cbn in HR; congruence).
+      unfold str in *. rewrite ?EK in *. destruct s0 as [|? [|? ?]]; eexists; exact EH.
+    + destruct (map (hsuffixes st ws (S d)) ks) as [|s0 [|s1 [|? ?]]] eqn:EK; try (cbn in HR; congruence).
+      unfold str in *. rewrite ?EK in *.
+      inversion HG as [|? ? G0 HG1]; subst. inversion HG1 as [|? ? G1 _]; subst.
+      destruct G0 as [_ [A0 B0]]. destruct G1 as [_ [A1 B1]].
+      unfold blk_rows, blk_mid in *. cbn [map] in HR. inversion HR as [[H0 H1]].
+      inversion F as [|p0 ? Ps' ? L0 F']; subst. inversion F' as [|p1 ? Ps'' ? L1 F'']; subst. inversion F''; subst.
+      cbn [concat] in EH.
+      match type of EH with context [if Nat.eqb ?x 1 then _ else _] => destruct (Nat.eqb x 1) eqn:EG end.
+      * apply Nat.eqb_eq in EG.
+        match type of EH with ?l = _ => remember l as LHS eqn:ELHS; clear ELHS end.
+        unfold hblock, str in *.
+        assert (E0 : length s0 = 1) by lia.
+        assert (E1 : length s1 = 1) by lia.
+        destruct s0 as [|x0 [|? ?]]; try discriminate. destruct s1 as [|x1 [|? ?]]; try discriminate.
+        destruct p0 as [|q0 [|? ?]]; try discriminate. destruct p1 as [|q1 [|? ?]]; try discriminate.
+        cbn in EH.
+        destruct prefix as [|a0 [|a1 [|a2 prefix']]]; cbn in EH.
+        -- exists []. rewrite EH. reflexivity.
+        -- exists [a0 ++ q0]. rewrite EH. cbn [zip_with]. rewrite <- ?app_assoc, ?app_nil_r. reflexivity.
+        -- exists [a0 ++ q0; a1]. rewrite EH. cbn [zip_with]. rewrite <- ?app_assoc, ?app_nil_r. reflexivity.
+        -- exists [a0 ++ q0; a1; a2 ++ q1]. rewrite EH. cbn [zip_with]. rewrite <- ?app_assoc, ?app_nil_r.
+           destruct prefix'; reflexivity.
+      * apply Nat.eqb_neq in EG.
+        unfold hblock, str in *.
+        assert (HN1 : ~ (length s0 = 1 /\ length s1 = 1)) by lia.
+        rewrite zip_with_app_assoc in EH.
+        destruct s0 as [|x0 [|? ?]]; destruct s1 as [|x1 [|? ?]];
+          try (eexists; exact EH).
+        exfalso. apply HN1. split; reflexivity.
+    + rewrite zip_with_app_assoc in EH.
+      destruct (map (hsuffixes st ws (S d)) ks) as [|s0 [|s1 [|s2 ?]]] eqn:EK; try (cbn in HR; congruence).
+      unfold str in *. rewrite ?EK in *. eexists. destruct s0 as [|? [|? ?]]; destruct s1 as [|? [|? ?]]; exact EH.
+Qed.
+
+(* the rows of hyield_tree end, top to bottom, in the cells of the leaves in pre-order; the only
+   rows without a leaf are the separating rows *)
+Theorem hyield_leaf_order st inter t :
+  exists rows P, hyield_rows st inter t = Ret rows
+    /\ rows = zip_with (@app N) P (hsuffixes st (padding_depths inter t) 1 t)
+    /\ length rows = length (hsuffixes st (padding_depths inter t) 1 t)
+    /\ filter nonempty (hsuffixes st (padding_depths inter t) 1 t)
+       = hleaf_cells st (padding_depths inter t) 1 t.
+Proof.
+  destruct (hyield_rows_spec st inter t) as [rows [ER HR]].
+  destruct (hbranch_suffixes st inter (padding_depths inter t) t 1) as [P EP].
+  exists rows, P. split; [exact ER|].
+  unfold hyield_rows in ER.
+  destruct (hbranch st inter (padding_depths inter t) 1 t) as [[rows' mid] ok].
+  destruct ok; [|discriminate]. inversion ER; subst rows'. cbn [fst] in EP.
+  split; [exact EP|]. split.
+  - unfold h_rows in HR. apply Nat.eqb_eq in HR. rewrite HR. symmetry. apply hsuffixes_length.
+  - apply hsuffixes_leaves.
+Qed.
+
+(* ============================================================================================== *)
+(* 10. tree_to_mermaid: vertices and edges are exact (trees with at least two nodes) *)
+
+(* the tree of mermaid names below a node named pid *)
+Fixpoint mit (pid : str) (i : nat) (t : tree) : tree :=
+  match t with
+  | T _ _ _ ks =>
+      let cid := pid ++ dash ++ str_of_nat i in
+      T None cid [] ((fix go (j : nat) (l : list tree) : list tree :=
+                        match l with [] => [] | k :: r => mit cid j k :: go (S j) r end) 0 ks)
+  end.
+Definition mit_kids (cid : str) (j : nat) (ks : list tree) : list tree :=
+  (fix go (j : nat) (l : list tree) : list tree :=
+     match l with [] => [] | k :: r => mit cid j k :: go (S j) r end) j ks.
+Lemma mit_eq pid i g n a ks :
+  mit pid i (T g n a ks) = T None (pid ++ dash ++ str_of_nat i) [] (mit_kids (pid ++ dash ++ str_of_nat i) 0 ks).
+Proof. reflexivity. Qed.
+Lemma mit_kids_cons cid j k r : mit_kids cid j (k :: r) = mit cid j k :: mit_kids cid (S j) r.
+Proof. reflexivity. Qed.
+
+Definition mflow_edge (f : mflow) : str * str := (mf_from f, mf_to f).
+
+Definition mit_tree_ok (t : tree) : Prop :=
+  forall pid pl i,
+    map mf_to (mermaid_go pid pl i t) = names_pre (mit pid i t)
+    /\ map mf_to_label (mermaid_go pid pl i t) = names_pre t
+    /\ map mflow_edge (mermaid_go pid pl i t) = (pid, tname (mit pid i t)) :: tree_edges (mit pid i t)
+    /\ same_shape (mit pid i t) t.
+
+Lemma mit_kids_ok ks : Forall mit_tree_ok ks ->
+  forall cid pl j,
+    map mf_to (mgo_kids cid pl j ks) = names_pre_kids (mit_kids cid j ks)
+    /\ map mf_to_label (mgo_kids cid pl j ks) = names_pre_kids ks
+    /\ map mflow_edge (mgo_kids cid pl j ks) = kids_edges cid (mit_kids cid j ks)
+    /\ same_shape_kids (mit_kids cid j ks) ks.
+Proof.
+  induction 1 as [|k r Hk Hr IH]; intros cid pl j.
+  - repeat split.
+  - rewrite mgo_kids_cons, mit_kids_cons, !map_app.
+    destruct (Hk cid pl j) as [A1 [A2 [A3 A4]]]. destruct (IH cid pl (S j)) as [B1 [B2 [B3 B4]]].
+    rewrite A1, A2, A3, B1, B2, B3, kids_edges_cons, !names_pre_kids_cons.
+    repeat split; assumption.
+Qed.
+
+Lemma mit_tree_ok_all t : mit_tree_ok t.
+Proof.
+  induction t as [g n a ks IH] using tree_ind'. intros pid pl i.
+  rewrite mermaid_go_eq, mit_eq. cbn [map mf_to mf_to_label mflow_edge mf_from tname].
+  destruct (mit_kids_ok ks IH (pid ++ dash ++ str_of_nat i) None 0) as [A1 [A2 [A3 A4]]].
+  rewrite A1, A2, A3, !names_pre_eq, tree_edges_eq. repeat split. exact A4.
+Qed.
+
+Theorem mermaid_graph_exact t :
+  2 <= tsize (compact t) -> prop_C18_g t (mermaid_nodes t) (mermaid_edges t) = true.
+Proof.
+  intros H2. unfold prop_C18_g. rewrite mermaid_ids_distinct.
+  unfold mermaid_nodes, mermaid_edges. rewrite mermaid_flows_eq.
+  assert (Hn : tname t = tname (compact t)) by (destruct t; reflexivity).
+  destruct (compact t) as [g n a ks] eqn:EC. cbn [tname tkids] in *.
+  destruct (mit_kids_ok ks (proj2 (Forall_forall _ _) (fun x _ => mit_tree_ok_all x)) root_ref (Some n) 0)
+    as [A1 [A2 [A3 A4]]].
+  set (rootit := T None root_ref [] (mit_kids root_ref 0 ks)).
+  assert (Hne : mgo_kids root_ref (Some n) 0 ks <> []).
+  { destruct ks as [|[g' n' a' ks'] r]; [cbn in H2; lia|]. rewrite mgo_kids_cons, mermaid_go_eq. discriminate. }
+  destruct (mgo_kids root_ref (Some n) 0 ks) as [|f fs] eqn:EF; [contradiction|].
+  rewrite Hn.
+  assert (V1 : map fst ((root_ref, n) :: map (fun f0 : mflow => (mf_to f0, mf_to_label f0)) (f :: fs))
+               = names_pre rootit).
+  { cbn [map fst]. rewrite map_map. cbn [fst]. unfold rootit. rewrite names_pre_eq. f_equal. exact A1. }
+  assert (V2 : map snd ((root_ref, n) :: map (fun f0 : mflow => (mf_to f0, mf_to_label f0)) (f :: fs))
+               = names_pre (T g n a ks)).
+  { cbn [map snd]. rewrite map_map. cbn [snd]. rewrite names_pre_eq. f_equal. exact A2. }
+  apply andb_true_iff. split; [apply andb_true_iff; split; [|reflexivity]|].
+  - unfold graph_vertices_ok. rewrite V2. apply list_eqb_refl. apply str_eqb_refl.
+  - apply graph_edges_ok_of_eq. rewrite V1.
+    change (map (fun f0 : mflow => (mf_from f0, mf_to f0)) (f :: fs))
+      with (map mflow_edge (f :: fs)).
+    rewrite A3. change (kids_edges root_ref (mit_kids root_ref 0 ks)) with (tree_edges rootit).
+    rewrite tree_edges_links. unfold parent_links.
+    rewrite (same_shape_plinks rootit (T g n a ks)); [reflexivity|]. exact A4.
+Qed.
+
+(* ============================================================================================== *)
+(* 11. vertical rendering: decoding from the printed text alone *)
+
+Lemma firstn_app_exact {A} (a b : list A) : firstn (length a) (a ++ b) = a.
+Proof. induction a as [|x a IH]; cbn; [reflexivity|]. rewrite IH. reflexivity. Qed.
+Lemma skipn_app_exact {A} (a b : list A) : skipn (length a) (a ++ b) = b.
+Proof. induction a as [|x a IH]; cbn; [reflexivity|exact IH]. Qed.
+
+Lemma opt_all_map_some {A B} (f : A -> option B) (g : A -> B) l :
+  (forall x, In x l -> f x = Some (g x)) -> opt_all (map f l) = Some (map g l).
+Proof.
+  induction l as [|x l IH]; intros H; [reflexivity|].
+  cbn [map opt_all]. rewrite (H x) by (left; reflexivity). rewrite IH; [reflexivity|].
+  intros y Hy. apply H. right. exact Hy.
+Qed.
+
+Section TextDecode.
+  Variable st : vstyle.
+  Hypothesis Hok : vstyle_ok st = true.
+  Hypothesis Hd : vstyle_distinct st = true.
+
+  Let w := vs_width st.
+
+  Lemma style_lengths : length (vs_branch st) = w /\ length (vs_final st) = w /\ length (vs_gap st) = w.
+  Proof.
+    unfold vstyle_ok in Hok. apply andb_true_iff in Hok as [H1 H2].
+    apply Nat.eqb_eq in H1. apply Nat.eqb_eq in H2. unfold w, vs_width, vs_gap, spaces.
+    rewrite repeat_length. lia.
+  Qed.
+
+  Lemma style_distinct :
+    str_eqb (vs_stem st) (vs_branch st) = false /\ str_eqb (vs_stem st) (vs_final st) = false
+    /\ str_eqb (vs_gap st) (vs_branch st) = false /\ str_eqb (vs_gap st) (vs_final st) = false.
+  Proof.
+    unfold vstyle_distinct in Hd. repeat (apply andb_true_iff in Hd as [Hd ?]).
+    repeat match goal with H : negb _ = true |- _ => apply negb_true_iff in H end.
+    repeat split; rewrite str_eqb_sym; assumption.
+  Qed.
+
+  Lemma parse_cells anc : forall fuel cells rest,
+    length anc < fuel ->
+    v_parse_line fuel st cells (concat (map (vcell st) anc) ++ rest)
+    = v_parse_line (fuel - length anc) st (cells + length anc) rest.
+  Proof.
+    destruct style_lengths as [LB [LF LG]]. destruct style_distinct as [D1 [D2 [D3 D4]]].
+    induction anc as [|b anc IH]; intros fuel cells rest Hf.
+    - cbn [map concat app length]. rewrite Nat.sub_0_r, Nat.add_0_r. reflexivity.
+    - destruct fuel as [|f]; [cbn in Hf; lia|]. cbn [map concat]. rewrite <- app_assoc.
+      cbn [v_parse_line]. fold w.
+      assert (LC : length (vcell st b) = w) by (destruct b; [reflexivity|exact LG]).
+      cbv zeta. rewrite <- LC. rewrite firstn_app_exact, !skipn_app_exact.
+      replace (str_eqb (vcell st b) (vs_branch st)) with false by (destruct b; cbn [vcell]; congruence).
+      replace (str_eqb (vcell st b) (vs_final st)) with false by (destruct b; cbn [vcell]; congruence).
+      assert (HO : str_eqb (vcell st b) (vs_stem st) || str_eqb (vcell st b) (vs_gap st) = true)
+        by (destruct b; cbn [vcell]; rewrite str_eqb_refl; [reflexivity|apply orb_true_r]).
+      rewrite HO. cbn [orb]. cbn [length] in Hf. rewrite IH by lia. cbn [length].
+      replace (S f - S (length anc)) with (f - length anc) by lia.
+      replace (S cells + length anc) with (cells + S (length anc)) by lia. reflexivity.
+  Qed.
+
+  Lemma parse_row r :
+    vr_depth r = S (length (vr_anc r)) ->
+    v_parse_line (S (length (line_of (vline_of st r)))) st 0 (line_of (vline_of st r))
+    = Some (vr_depth r, vr_name r).
+  Proof.
+    intros Hdep. destruct style_lengths as [LB [LF LG]].
+    unfold vline_of, line_of.
+    assert (Hw : w <> 0).
+    { unfold vstyle_distinct in Hd. repeat (apply andb_true_iff in Hd as [Hd ?]).
+      apply negb_true_iff in Hd. apply Nat.eqb_neq in Hd. exact Hd. }
+    rewrite parse_cells.
+    - set (fill := if vr_sib r then vs_branch st else vs_final st).
+      assert (LFi : length fill = w) by (unfold fill; destruct (vr_sib r); assumption).
+      match goal with |- v_parse_line ?f _ _ _ = _ => destruct f as [|f'] eqn:EF end.
+      + exfalso. rewrite !app_length, length_cells in EF. fold w in EF.
+        assert (length (vr_anc r) <= w * length (vr_anc r)) by (destruct w; [contradiction|]; nia).
+        lia.
+      + cbn [v_parse_line]. fold w. cbv zeta. rewrite <- LFi. rewrite firstn_app_exact, !skipn_app_exact.
+        assert (HO : str_eqb fill (vs_branch st) || str_eqb fill (vs_final st) = true)
+          by (unfold fill; destruct (vr_sib r); rewrite str_eqb_refl; [reflexivity|apply orb_true_r]).
+        rewrite HO, Hdep. reflexivity.
+    - rewrite !app_length, length_cells. fold w.
+      assert (length (vr_anc r) <= w * length (vr_anc r)) by (destruct w; [contradiction|]; nia).
+      lia.
+  Qed.
+
+  Theorem v_text_decodable_model t : v_text_decodable st t (print_lines st t) = true.
+  Proof.
+    unfold v_text_decodable. rewrite Hd. cbn [negb orb].
+    unfold print_lines, v_decode_text. rewrite yield_lines_spec. cbn [map line_of app].
+    rewrite !map_map.
+    rewrite (opt_all_map_some _ (fun r => (vr_depth r, vr_name r))).
+    - destruct t as [g n a ks]. rewrite vrows_root_eq. cbn [tkids tname].
+      rewrite (vrows_kids_plist ks 0 []).
+      change ((0, n) :: plist_kids 1 ks) with (plist 0 (T g n a ks)).
+      replace (plist 0 (T g n a ks)) with (plist_kids 0 [T g n a ks])
+        by (rewrite plist_kids_cons; apply app_nil_r).
+      rewrite forest_of_pre_plist.
+      + cbn [map]. apply same_names_erase.
+      + cbn [fsize fold_right length]. rewrite Nat.add_0_r, map_length.
+        rewrite <- (map_length vr_name), vrows_kids_names, map_length.
+        rewrite <- pre_length. cbn [pre length]. lia.
+    - intros r Hr. apply parse_row. apply (vrows_root_depth t r Hr).
+  Qed.
+End TextDecode.
